@@ -109,7 +109,7 @@ var c12Values = map[string][]string{
 	"account":  {"", "world", "a:b", "@a", "<kept>", "a b", "zz"},
 	"portion":  {"", "1/0", "0/0", "150%", "3/2", "-1/2", "abc", "50%", "0.5", "1/2/3", "18446744073709551617/36893488147419103234", "0%", "100%", "1 / 3"},
 	"number":   {"", "abc", "-3", "18446744073709551617", "1.5", "0x10", "1_000", "+7", "0", "9223372036854775808", "18446744073709551615", "18446744073709551616", "-9223372036854775809"},
-	"string":   {"", "héllo \"q\"", "k k"},
+	"string":   {"", "héllo \"q\"", "k k", "15% of gross", "100%d %s %v", "a\\nb"},
 	"asset":    {"", "usd", "EUR"},
 }
 
